@@ -380,7 +380,7 @@ func runC08(c *Ctx) {
 			t := tb.Of(g[0].Common().Args[0])
 			ok = t.Op == "Call" && t.Name == "path/filepath.Join" && strings.Contains(t.String(), "Field[Path](Param(0:fs))") && strings.Contains(t.String(), "(*eventlogger.FileSink).fileNamePattern") && strings.Contains(t.String(), `Const("*")`)
 		case len(g) == 0 && len(rd) == 1:
-			ok = tb.Of(rd[0].Common().Args[0]).String() == "Field[Path](Param(0:fs))"
+			ok = isSinkDir(tb.Of(rd[0].Common().Args[0]))
 		}
 		r.Check(ok, "C08.names", "pruneFiles:listing", p.Pos(pf.Pos()), "the removal candidates are looked up in the sink's own directory (os.ReadDir(fs.Path), or a glob of fs.Path and the file name pattern)", "the pruning candidates are not taken from a listing of the sink's own directory fs.Path (or a glob built from the sink's path and file name pattern)")
 	}
@@ -586,7 +586,7 @@ func runC13(c *Ctx) {
 
 func runC14(c *Ctx) {
 	p, r := c.P, c.R
-	r.Explanation = "Decides, for both JSON formatters (sibling implementations that must agree): the value encoded is a struct whose JSON members are exactly created_at, event_type and payload, filled from e.CreatedAt, e.Type and e.Payload; a json.Encoder over the formatter's own buffer is used (newline-terminated output) and FormattedAs(\"json\", buf.Bytes()) happens only on the err == nil edge of Encode, an encoding error yields (nil, err); no field of the event is assigned; JSONFormatterFilter forwards its event parameter iff the predicate is nil or returned (true, nil), (nil, nil) iff false, (nil, err) on error, and Filter likewise without the nil case; Event.Formatted is accessed only inside FormattedAs (under Event.l for writing) and Format (under Event.l for reading) or through freshly allocated events. JSON round-trip faithfulness for exotic payloads is encoding/json semantics and is not decided. C14.pred call: a stock node calls a func-typed configuration field only where it was found non-nil."
+	r.Explanation = "Decides, for both JSON formatters (sibling implementations that must agree): the value encoded is a struct whose JSON members are exactly created_at, event_type and payload, filled from e.CreatedAt, e.Type and e.Payload; a json.Encoder over the formatter's own buffer is used (newline-terminated output) and FormattedAs(\"json\", buf.Bytes()) happens only on the err == nil edge of Encode, an encoding error yields (nil, err); no field of the event is assigned; JSONFormatterFilter forwards its event parameter iff the predicate is nil or returned (true, nil), (nil, nil) iff false, (nil, err) on error, and Filter likewise without the nil case; Event.Formatted is accessed only inside FormattedAs (under Event.l for writing) and Format (under Event.l for reading) or through freshly allocated events. JSON round-trip faithfulness for exotic payloads is encoding/json semantics and is not decided. C14.pred call: a stock node calls a func-typed configuration field only where it was found non-nil. C14.errors looks into a repository helper the encode failure is handed to: the helper must return a non-nil error whenever it is given one."
 	r.NotDecided = []string{"round-trip faithfulness of encoding/json for arbitrary payloads (A4)"}
 	c.lockControls()
 	tb := p.NewTerms(nil)
@@ -968,7 +968,7 @@ var fileSinkErrExceptions = []ErrException{
 
 func runC15(c *Ctx) {
 	p, r := c.P, c.R
-	r.Explanation = "Decides the configuration-to-behaviour clauses structurally: the full decision table of FileSink.rotate over the 81 orderings of {BytesWritten vs MaxBytes, MaxBytes vs 0, time.Since(LastCreated) vs MaxDuration, MaxDuration vs 0} — the branch that closes the file is taken iff (bytes >= max and max > 0) or (elapsed > dur and dur > 0); the file-name function yields the plain configured name iff TimestampOnlyOnRotate or rotation is disabled, otherwise the pattern filled with UnixNano of the creation time that is also stored in LastCreated, and the timestamp-only rename target uses the same pattern; modes (0600 / 0700 constants, configured mode or default when zero, MkdirAll(Path, dirMode) before the open, Chmod iff a mode is configured); pruning removes exactly matches[i] for i < len(matches) - MaxFiles after sort.Strings, returns early when MaxFiles == 0, and runs only between the close and the re-open of a rotation; open resets BytesWritten and LastCreated, and the successful write adds its byte count. Strictly increasing timestamps and real directory contents are not decided. C15.errors (no error of the rotation machinery dropped) and C15.pattern (shape of fileNamePattern)."
+	r.Explanation = "Decides the configuration-to-behaviour clauses structurally: the full decision table of FileSink.rotate over the 81 orderings of {BytesWritten vs MaxBytes, MaxBytes vs 0, time.Since(LastCreated) vs MaxDuration, MaxDuration vs 0} — the branch that closes the file is taken iff (bytes >= max and max > 0) or (elapsed > dur and dur > 0); the file-name function yields the plain configured name iff TimestampOnlyOnRotate or rotation is disabled, otherwise the pattern filled with UnixNano of the creation time that is also stored in LastCreated, and the timestamp-only rename target uses the same pattern; modes (0600 / 0700 constants, configured mode or default when zero, MkdirAll(Path, dirMode) before the open, Chmod iff a mode is configured); pruning removes exactly matches[i] for i < len(matches) - MaxFiles after sort.Strings, returns early when MaxFiles == 0, and runs only between the close and the re-open of a rotation; open resets BytesWritten and LastCreated, and the successful write adds its byte count. Strictly increasing timestamps and real directory contents are not decided. C15.errors (no error of the rotation machinery dropped) and C15.pattern (shape of fileNamePattern). C15.prune listing-dir: pruning lists the directory the active file lives in (F47); close-clears-handle: after Close of the sink's file the handle is dropped on every path, also when Close failed (F48). C15.pattern no-overlap (F49); C15.mode open:mkdir-file-dir (F50)."
 	r.NotDecided = []string{"timestamps being strictly increasing (clock behaviour)", "actual directory contents / files outside the sink's name space", "MaxBytes > 0 but MaxDuration < 0 corner: rotateEnabled uses MaxDuration != 0"}
 	tb := p.NewTerms(nil)
 	// --- C15.errors: no failure of opening, creating, chmod-ing, closing, renaming, globbing or
@@ -1181,6 +1181,7 @@ func runC15(c *Ctx) {
 		})
 		r.Check(okNil, "C15.prune", "rotate:forget-file", p.Pos(fn.Pos()), "fs.f is reset after the close so that open() creates the next file", "rotate does not forget the closed file: open() would return early and keep writing to a closed file")
 	}
+	c.ruleCloseClearsHandle("C15.prune")
 	c.ruleRenameTarget("C15.name")
 	// --- C15.name
 	if fn := c.Fn("C15.name", PkgRoot, "FileSink", "newFileName"); fn != nil {
@@ -1251,12 +1252,71 @@ func runC15(c *Ctx) {
 		r.Check(dm != nil && dm.Value.Int64() == 0o700 && fm != nil && fm.Value.Int64() == 0o600, "C15.mode", "constants", "", "dirMode 0700, defaultMode 0600", "the directory / default file mode constants are not 0700 / 0600")
 		mk := callsTo(fn, func(n string, cc *ssa.CallCommon) bool { return n == "os.MkdirAll" })
 		of := callsTo(fn, func(n string, cc *ssa.CallCommon) bool { return n == "os.OpenFile" })
-		if len(mk) != 1 || len(of) != 1 {
-			r.Bad("C15.mode", "open:calls", p.Pos(fn.Pos()), "open does not contain exactly one MkdirAll and one OpenFile")
+		if len(mk) < 1 || len(mk) > 2 || len(of) != 1 {
+			r.Bad("C15.mode", "open:calls", p.Pos(fn.Pos()), "open does not contain one or two MkdirAll calls and exactly one OpenFile")
 		} else {
-			dmv, _ := constInt(mk[0].Common().Args[1])
-			okMk := tb.Of(mk[0].Common().Args[0]).String() == "Field[Path](Param(0:fs))" && dmv == 0o700 && dominatesInstr(mk[0], of[0])
-			r.Check(okMk, "C15.mode", "open:mkdir", p.InstrPos(mk[0]), "MkdirAll(fs.Path, 0700) precedes the open", "the directory is not created on demand with mode 0700 before the file is opened")
+			// the directory the file is opened in is created on demand, with mode 0700: fs.Path, and the
+			// directory part of a FileName like app/audit.log below it (F50). On every path that reaches
+			// the OpenFile either MkdirAll(Dir(<the opened path>)) ran, or MkdirAll(fs.Path) ran and the
+			// path established that the file's directory IS fs.Path.
+			openPath := tb.Of(of[0].Common().Args[0])
+			isFileDir := func(t *Term) bool {
+				return t.Is("Call", "path/filepath.Dir") && len(t.Args) == 1 && t.Args[0].String() == openPath.String()
+			}
+			okMk := true
+			for _, m := range mk {
+				dmv, _ := constInt(m.Common().Args[1])
+				at := tb.Of(m.Common().Args[0])
+				if dmv != 0o700 || !(at.String() == "Field[Path](Param(0:fs))" || isFileDir(at)) {
+					okMk = false
+				}
+			}
+			nOpen := 0
+			for _, pa := range c.enum("C15.mode", fn, PathOpts{}) {
+				var ofStep *Step
+				madePath, madeDir := false, false
+				calls := pa.CallsOn()
+				for i := range calls {
+					switch stepCallName(calls[i]) {
+					case "os.OpenFile":
+						if ofStep == nil {
+							ofStep = &calls[i]
+						}
+					case "os.MkdirAll":
+						if ofStep == nil {
+							at := pa.TermsAt(calls[i]).Of(calls[i].In.(ssa.CallInstruction).Common().Args[0])
+							if at.String() == "Field[Path](Param(0:fs))" {
+								madePath = true
+							}
+							if isFileDir(at) {
+								madeDir = true
+							}
+						}
+					}
+				}
+				if ofStep == nil {
+					continue
+				}
+				nOpen++
+				sameDir, found := hasAtom(pa, func(at Atom) bool {
+					if at.Op != "eq" {
+						return false
+					}
+					isPathish := func(t *Term) bool {
+						return t.String() == "Field[Path](Param(0:fs))" || (t.Is("Call", "path/filepath.Clean") && len(t.Args) == 1 && t.Args[0].String() == "Field[Path](Param(0:fs))")
+					}
+					return (isFileDir(at.L) && isPathish(at.R)) || (isFileDir(at.R) && isPathish(at.L))
+				})
+				if !(madeDir || (madePath && found && sameDir)) {
+					okMk = false
+					r.Bad("C15.mode", "open:mkdir-file-dir", p.InstrPos(ofStep.In), "the file is opened on a path on which its directory was not created: MkdirAll covers fs.Path only, so a FileName with a directory part (app/audit.log) fails with ENOENT until somebody creates Path/app by hand — "+shortStr(p.PathSummary(pa), 160))
+					break
+				}
+			}
+			if nOpen == 0 {
+				okMk = false
+			}
+			r.Check(okMk, "C15.mode", "open:mkdir", p.InstrPos(mk[0]), "the directory of the file (fs.Path and the directory part of FileName) is created with mode 0700 before the open", "the directory is not created on demand with mode 0700 before the file is opened")
 			// mode = configured or default when zero
 			okMode, okChmod, okReset := false, false, true
 			for _, pa := range c.enum("C15.mode", fn, PathOpts{}) {
@@ -1340,6 +1400,14 @@ func runC15(c *Ctx) {
 	if fn := c.Fn("C15.prune", PkgRoot, "FileSink", "pruneFiles"); fn != nil {
 		rm := callsTo(fn, func(n string, cc *ssa.CallCommon) bool { return n == "os.Remove" })
 		srt := callsTo(fn, func(n string, cc *ssa.CallCommon) bool { return n == "sort.Strings" })
+		// the directory listed is the one the ACTIVE file lives in: open() joins fs.Path with a name
+		// derived from fs.FileName, so a FileName with a directory part (sub/audit.log) puts the
+		// sink's files into fs.Path/sub; a listing of fs.Path alone never finds them.
+		for _, rd := range callsTo(fn, func(n string, cc *ssa.CallCommon) bool { return n == "os.ReadDir" }) {
+			dt := tb.Of(rd.Common().Args[0])
+			r.Check(isActiveFileDir(dt), "C15.prune", "pruneFiles:listing-dir", p.InstrPos(rd), "the directory listed for pruning is the one the active file lives in (Path joined with FileName's directory part)",
+				"pruning lists "+shortStr(dt.String(), 80)+", not the directory of the active file (Dir(Join(Path, FileName))): with a FileName that carries a directory part the rotated files are never found and MaxFiles is never enforced")
+		}
 		if len(rm) != 1 || len(srt) != 1 {
 			r.Bad("C15.prune", "pruneFiles:calls", p.Pos(fn.Pos()), "pruneFiles does not contain exactly one os.Remove and one sort.Strings")
 		} else {
@@ -1373,7 +1441,8 @@ func runC15(c *Ctx) {
 										}
 										// ... and the test is the sink's own name test: isRotatedName(fileNamePattern(), name)
 										if ct.Find(func(x *Term) bool {
-											return x.Is("Call", "eventlogger.isRotatedName") && len(x.Args) == 2 && x.Args[0].Is("Call", "(*eventlogger.FileSink).fileNamePattern")
+											return x.Is("Call", "eventlogger.isRotatedName") && len(x.Args) == 2 && (x.Args[0].Is("Call", "(*eventlogger.FileSink).fileNamePattern") ||
+												(x.Args[0].Is("Call", "path/filepath.Base") && len(x.Args[0].Args) == 1 && x.Args[0].Args[0].Is("Call", "(*eventlogger.FileSink).fileNamePattern")))
 										}) == nil {
 											ownTest = false
 										}
